@@ -1,15 +1,18 @@
 #!/bin/sh
-# usage: tools/trymutant.sh <patch.diff> <check id>... ; applies the patch to /repo, runs the quick checks, reverts.
-# Prints one line per check: CAUGHT / MISSED / BROKEN(exit 2)
+# usage: tools/trymutant.sh <patch.diff> <check id>...
+# Applies the patch to a scratch worktree of /repo HEAD (never to /repo itself), runs the given checks against it
+# (VERIF_REPO), and removes the worktree. Prints one line per check: CAUGHT / MISSED / BROKEN.
 patch=$1; shift
-cd /repo || exit 2
-if ! git diff --quiet; then echo "repo dirty"; exit 2; fi
-git apply "$patch" 2>/dev/null || patch -p1 -s -F3 --no-backup-if-mismatch < "$patch" || { echo "patch does not apply"; git checkout -- .; exit 2; }
-go build ./... || { echo "mutant does not build"; git checkout -- .; exit 2; }
+wt=$(mktemp -d /tmp/mutwt.XXXXXX); rmdir "$wt"
+git -C /repo worktree add -q --detach "$wt" HEAD || exit 2
+cleanup() { git -C /repo worktree remove --force "$wt" >/dev/null 2>&1; rm -rf "$wt"; }
+cd "$wt" || exit 2
+git apply "$patch" 2>/dev/null || patch -p1 -s -F3 --no-backup-if-mismatch < "$patch" || { echo "patch does not apply"; cleanup; exit 2; }
+GOFLAGS=-mod=mod GOPROXY=off go build ./... || { echo "mutant does not build"; cleanup; exit 2; }
 for id in "$@"; do
-  out=$(cd /verif && VERIF_NO_EVIDENCE=1 bin/check "$id" ${TIER:-quick} 2>&1); rc=$?
+  out=$(cd /verif && VERIF_REPO="$wt" VERIF_NO_EVIDENCE=1 bin/check "$id" ${TIER:-quick} 2>&1); rc=$?
   if [ $rc -eq 1 ]; then echo "CAUGHT $id: $(echo "$out" | grep -m1 '^DETAIL' | cut -c1-220)";
   elif [ $rc -eq 0 ]; then echo "MISSED $id";
   else echo "BROKEN $id rc=$rc: $(echo "$out" | tail -3 | cut -c1-300)"; fi
 done
-git checkout -- .
+cleanup
